@@ -205,7 +205,7 @@ impl Family for Driver {
             argv.push(format!("{},id={i},mode = m {i} ,flag", path.display()));
             gen_args.push(args);
             // pre-existing files of generators that produce files
-            if (outdir == "identical" || outdir == "different") && (beh == "ok1" || beh == "ok2") {
+            if (outdir == "identical" || outdir == "different") && matches!(beh.as_str(), "ok1" | "ok2" | "okinfo" | "okwarn") {
                 let p = target.join(crate::fam_driver::gen_file_name(i, 1));
                 let content = if outdir == "identical" { gen_file_contents(i, 1) } else { "something else entirely\n".to_owned() };
                 std::fs::write(&p, content).unwrap();
@@ -301,7 +301,7 @@ impl Family for Driver {
         for (idx, beh) in gens.iter().enumerate() {
             let i = idx as u64 + 1;
             let want = match beh.as_str() {
-                "ok1" => 1,
+                "ok1" | "okinfo" | "okwarn" => 1,
                 "ok2" => 2,
                 _ => 0,
             };
